@@ -7,6 +7,8 @@ import (
 	"errors"
 	"fmt"
 
+	"github.com/hashicorp/go-memdb"
+
 	"github.com/hashicorp/consul/agent/structs"
 	"github.com/hashicorp/consul/api"
 )
@@ -134,13 +136,25 @@ func (s *Store) txnKVS(tx WriteTxn, idx uint64, op *structs.TxnKVOp) (structs.Tx
 }
 
 // txnSession handles all Session-related operations.
-func txnSession(tx WriteTxn, idx uint64, op *structs.TxnSessionOp) error {
+func (s *Store) txnSession(tx WriteTxn, idx uint64, op *structs.TxnSessionOp) error {
 	var err error
 
 	// enumcover:api.SessionOp
 	switch op.Verb {
 	case api.SessionDelete:
-		err = sessionDeleteWithSession(tx, &op.Session, idx)
+		var existing interface{}
+		existing, err = tx.First(tableSessions, indexID, Query{Value: op.Session.ID, EnterpriseMeta: op.Session.EnterpriseMeta})
+		switch {
+		case err != nil:
+		case existing == nil:
+			// As before, deleting a session that does not exist fails the transaction.
+			err = memdb.ErrNotFound
+		default:
+			// Go through the same invalidation as SessionDestroy: held locks are
+			// released or deleted and the check links and session-bound prepared
+			// queries are removed along with the session.
+			err = s.deleteSessionTxn(tx, idx, op.Session.ID, &op.Session.EnterpriseMeta)
+		}
 	default:
 		return &UnsupportedFSMApplyPanicError{fmt.Errorf("unknown session verb %q", op.Verb)}
 	}
@@ -389,7 +403,7 @@ func (s *Store) txnDispatch(tx WriteTxn, idx uint64, ops structs.TxnOps) (struct
 		case op.Check != nil:
 			ret, err = s.txnCheck(tx, idx, op.Check)
 		case op.Session != nil:
-			err = txnSession(tx, idx, op.Session)
+			err = s.txnSession(tx, idx, op.Session)
 		case op.Intention != nil:
 			// NOTE: this branch is deprecated and exists for backwards
 			// compatibility with pre-1.9.0 raft logs and during upgrades.
